@@ -77,7 +77,7 @@ impl Check for C03 {
         let max_len = ctx.tier.pick(4usize, 5usize);
         let corp = corpus();
         ctx.rule = format!(
-            "(1) all strings of length 0..{} over the {}-character alphabet {:?} (every character class of the scanner, every first character of a multi-character symbol, one multi-byte character), each run bare and after `print(\"S\")` on the first line; (2) deviation bound k = 1 over a corpus of {} programs: truncation at every byte offset, deletion and duplication of every character, insertion before and replacement of every character by each of {} characters, deletion / duplication / swap of adjacent tokens, parsed with the real front end (hook ast) and, where the reference says the text is rejected or terminates, run; (2c) 20 characters outside the usual classes (NUL, controls, non-ASCII spaces and line separators, byte-order mark, combining and 4-byte characters, non-ASCII digits, numerals and letters) inserted at every offset of the short corpus programs; (2d) an unexpected token of every kind with 0..90 characters of ASCII / multi-byte content in 6 contexts; (2e) every string of length 0..3 over 13 characters as the text of an interpolation slot, and literal-only arithmetic over 10 edge literals, run to completion or a located diagnostic; (3) 1- and 2-byte invalid UTF-8 sequences inserted at every offset of short scripts through the CLI; non-trivial = every input that is not a program of the reference grammar",
+            "(1) all strings of length 0..{} over the {}-character alphabet {:?} (every character class of the scanner, every first character of a multi-character symbol, one multi-byte character), each run bare and after `print(\"S\")` on the first line; (2) deviation bound k = 1 over a corpus of {} programs: truncation at every byte offset, deletion and duplication of every character, insertion before and replacement of every character by each of {} characters, deletion / duplication / swap of adjacent tokens, parsed with the real front end (hook ast) and, where the reference says the text is rejected or terminates, run; (2c) 20 characters outside the usual classes (NUL, controls, non-ASCII spaces and line separators, byte-order mark, combining and 4-byte characters, non-ASCII digits, numerals and letters) inserted at every offset of the short corpus programs; (2d) an unexpected token of every kind with 0..90 characters of ASCII / multi-byte content in 6 contexts; (2e) every string of length 0..3 over 13 characters as the text of an interpolation slot, and literal-only arithmetic over 10 edge literals, run to completion or a located diagnostic; (3b) files of more than 1, 2 and 5 MiB through the CLI, valid and with a syntax error at the end; (3) 1- and 2-byte invalid UTF-8 sequences inserted at every offset of short scripts through the CLI; non-trivial = every input that is not a program of the reference grammar",
             max_len,
             SIGMA.len(),
             SIGMA.join(""),
@@ -251,6 +251,12 @@ impl Check for C03 {
                     batch.push(c);
                 }
             }
+            // slots that reach the front end again while they are evaluated: nested literals, calls
+            // of functions that build their result with an interpolated literal, three levels deep
+            for slot in ["$\\\"<${x}>\\\"", "w(x)", "w(w(x))", "w($\\\"${x}\\\")", "$\\\"${w($\\\"${x}\\\")}\\\"", "w(x) + w(x)", "[w(x)][0]", "{\\\"k\\\": w(x)}.k", "fn () {\n return w(x)\n }()"] {
+                let c = Case::new(format!("print(\"S\")\nx := \"v\"\nfn w(p) {{\nreturn $\"[${{p}}]\"\n}}\ny := $\"a${{{}}}b${{{}}}\"\nprint(y)\nprint(\"E\")\n", slot.replace("\\\"", "\""), slot.replace("\\\"", "\"")), 12, format!("slot that evaluates more interpolation: {}", slot));
+                batch.push(c);
+            }
             // literal-only arithmetic (what a parser might fold), at the edges of the range
             let lits = ["0", "1", "-1", "2", "-2", "9223372036854775807", "-9223372036854775807", "(-9223372036854775807 - 1)", "4611686018427387904", "3037000500"];
             for a in lits {
@@ -323,6 +329,29 @@ impl Check for C03 {
                     }
                     jobs.push((v, format!("bytes {:02x?} at offset {} of {:?}", seq, off, s)));
                 }
+            }
+        }
+        // (3b) files of a megabyte and more are read whole: a syntax error after 1 MiB, 2 MiB and
+        // 5 MiB of blank and comment lines is reported, the same file without it runs to its end
+        for mib in [1usize, 2, 5] {
+            let filler = "# a comment line of some length, nothing else here\n".repeat(mib * 1024 * 1024 / 51 + 40);
+            let good = format!("print(\"S\")\n{}print(\"E\")\n", filler);
+            let bad = format!("print(\"S\")\n{}x := )\n", filler);
+            let o = crate::subject::run_cli_at(&bin, good.as_bytes(), "case.sd")?;
+            n_utf += 1;
+            ctx.evaluations += 1;
+            if o.code != Some(0) || o.stdout != b"S\nE\n" {
+                let c = Case::new(format!("print(\"S\") + {} MiB of comment lines + print(\"E\")", mib), 9, format!("a valid file of more than {} MiB", mib));
+                let oc = Outcome { class: Class::Err, stdout: o.stdout.clone(), msg: o.stderr_str() };
+                ctx.report(&c, None, &oc, "large-file", format!("a valid file of more than {} MiB must run to its end: exit {:?}, stdout {:?}, stderr {:?}", mib, o.code, String::from_utf8_lossy(&o.stdout), o.stderr_str().chars().take(200).collect::<String>()));
+            }
+            let o = crate::subject::run_cli_at(&bin, bad.as_bytes(), "case.sd")?;
+            n_utf += 1;
+            ctx.evaluations += 1;
+            if o.code != Some(103) || !o.stdout.is_empty() || !o.stderr_str().starts_with("case.sd:") {
+                let c = Case::new(format!("print(\"S\") + {} MiB of comment lines + x := )", mib), 9, format!("a syntax error after more than {} MiB", mib));
+                let oc = Outcome { class: Class::Err, stdout: o.stdout.clone(), msg: o.stderr_str() };
+                ctx.report(&c, None, &oc, "large-file", format!("a syntax error after more than {} MiB must be reported before anything runs: exit {:?}, stdout {:?}, stderr {:?}", mib, o.code, String::from_utf8_lossy(&o.stdout), o.stderr_str().chars().take(200).collect::<String>()));
             }
         }
         use rayon::prelude::*;
